@@ -24,6 +24,7 @@ const (
 	clFull     = 'B' // a matcher keeps asking for more -> matching buffer full
 	clTLS      = 'T' // TLS-terminated by a non-terminal route, then falls through
 	clTwoStep  = 'P' // matched by a non-terminal route (consumes one byte), then by a terminal route
+	clTee      = 'W' // matched by a non-terminal route whose handler wraps the connection (tee), then falls through
 )
 
 type c13Conn struct {
@@ -128,6 +129,16 @@ func runC13(t *testing.T, e *worlds.Env, tier string) (bool, any) {
 			layer4.VerifNewRoute([]layer4.MatcherSet{{first(clTerminal, tp.Pick("term-need", 1, 3, 2500), 1)}}, []layer4.NextHandler{b.Handler(&term, sig)}),
 		}
 		pairLast := tp.Prob(1, 2, "pair-last")
+		// (with a large need the connection being teed still holds prefetched bytes that the
+		// routes after it do not pull: the consumer reads them through the wrapper)
+		teeNeed := tp.Pick("tee-need", 1, 6, 700, 5000)
+		teeSpec := HSpec{Kind: "tee", Name: "teeW", Branch: []HSpec{{Kind: "recorder", Name: "branchW", StartMark: "teemarkW", MaxBuf: 2048, PrefixOnly: true}}}
+		teeMark := HSpec{Kind: "mark", Name: "teemarkW"}
+		// a wrapping handler in front of the hand-over: the consumer reads through the wrapper.
+		// As the first route, the routes after it pull the prefetched bytes into the wrapper; as the
+		// last one, the connection being teed still holds them (in its pooled buffer) at the hand-over
+		teeRoute := layer4.VerifNewRoute([]layer4.MatcherSet{{first(clTee, teeNeed, 1)}}, []layer4.NextHandler{b.Handler(&teeMark, sig), b.Handler(&teeSpec, sig)})
+		teeLast := tp.Prob(1, 2, "tee-last")
 		routes := layer4.RouteList{
 			layer4.VerifNewRoute([]layer4.MatcherSet{{first(clNever, 1<<30, 2)}}, []layer4.NextHandler{b.Handler(&term, sig)}),
 			layer4.VerifNewRoute([]layer4.MatcherSet{{first(clError, tp.Pick("err-need", 1, 40), 3)}}, []layer4.NextHandler{b.Handler(&term, sig)}),
@@ -136,10 +147,16 @@ func runC13(t *testing.T, e *worlds.Env, tier string) (bool, any) {
 			// asks for needFall bytes of a fall-through connection, then says no
 			layer4.VerifNewRoute([]layer4.MatcherSet{{first(clFall, needFall, 0)}}, []layer4.NextHandler{b.Handler(&term, sig)}),
 		}
+		if !teeLast {
+			routes = append(layer4.RouteList{teeRoute}, routes...)
+		}
 		if pairLast {
 			routes = append(routes, twoStep...)
 		} else {
 			routes = append(layer4.RouteList(twoStep), routes...)
+		}
+		if teeLast {
+			routes = append(routes, teeRoute)
 		}
 		nln := 1
 		if tp.Prob(1, 4, "two-listeners") {
@@ -161,13 +178,16 @@ func runC13(t *testing.T, e *worlds.Env, tier string) (bool, any) {
 		<-ready
 		// clients
 		n := 1 + tp.Choose(7, "nconn")
-		classes := []byte{clFall, clFall, clTerminal, clNever, clError, clFull, clTLS, clTwoStep}
+		classes := []byte{clFall, clFall, clTerminal, clNever, clError, clFull, clTLS, clTwoStep, clTee}
 		for i := 1; i <= n; i++ {
 			cls := classes[tp.Choose(len(classes), "class")]
 			plan := &worlds.ClientPlan{ID: i, Addr: worlds.ClientAddr(i), End: worlds.EndHalfClose}
 			plan.StartAt = time.Duration(tp.Choose(400, "start-ms")) * time.Millisecond
 			m := &worlds.ConnModel{ID: i, Key: e.S.Seed*131 + uint64(i), Addr: plan.Addr.String()}
 			ln2 := 1 + tp.LogRange(0, 12000, "len")
+			if minLen := max(needFall, teeNeed+10); cls == clTee && ln2 < minLen {
+				ln2 = minLen + tp.Choose(50, "len-extra")
+			}
 			if minLen := max(needFall, 5); (cls == clFall || cls == clTLS) && ln2 < minLen {
 				// enough bytes for every route to decide (the tls matcher needs a 5-byte record header)
 				ln2 = minLen + tp.Choose(50, "len-extra")
@@ -366,7 +386,7 @@ func runC13(t *testing.T, e *worlds.Env, tier string) (bool, any) {
 				if !srvClosed {
 					e.S.Fail("C13/not-closed", "lw", "conn %d (class %c) was neither delivered nor closed", m.ID, cs.class)
 				}
-			case clFall, clTLS:
+			case clFall, clTLS, clTee:
 				if cs.accepts > 1 {
 					e.S.Fail("C13/delivered-twice", "lw", "conn %d was delivered to Accept %d times", m.ID, cs.accepts)
 				}
